@@ -23,7 +23,7 @@ def seeded():
         for s in ("seed1", "seed2"):
             mm = re.search(s + r": (.*?)\|", c)
             t = mm.group(1).strip() if mm else "?"
-            det.append("not detected" if "NOT DETECTED" in t else ("no-failing-input" if "no-failing-input-found" in t else ("failing input" if "VIOLATION" in t else t[:30])))
+            det.append("not detected" if "NOT DETECTED" in t else ("no-failing-input" if "no-failing-input-found" in t else ("failing input" if ("VIOLATION" in t or "failing input" in t or t.startswith("#")) else t[:30])))
         what = (m.get("what_it_breaks") or m.get("breaks") or "")[:260].replace("|", "/").replace("\n", " ")
         out.append("| %s | %s | %s | %s | %s / %s | %s |" % (name, m.get("property", name[:3]), what, v.get("suite", "?"), v.get("demo_with_mutant", "?"), v.get("demo_without_mutant", "?"), "; ".join(det)))
     return "\n".join(out)
